@@ -64,7 +64,7 @@ pub fn grid() -> Vec<Point> {
 fn budget(t: Tier) -> u64 {
     let n = grid().len() as u64 * 2;
     match t {
-        Tier::Quick => n * 4,
+        Tier::Quick => n * 10,
         Tier::Thorough => n * 60,
     }
 }
